@@ -19,6 +19,10 @@ def main():
         ok, out = runner.replay_file(a.replay)
         print(out)
         sys.exit(1 if ok else 0)
+    if a.tier == 'thorough' and not os.environ.get("VERIF_CVC5_RATE"):
+        os.environ["VERIF_CVC5_RATE"] = "0.02"          # thorough tier: 2% of the assertion queries are re-run with cvc5
+    import vf.engine as _eng
+    _eng.CVC5_RATE = float(os.environ.get("VERIF_CVC5_RATE", "0") or 0)
     mod = importlib.import_module("vf.props.%s" % pid.lower())
     sys.exit(mod.main(a.tier, only=a.only))
 
